@@ -58,12 +58,20 @@ def forall_int(f):
     raise NotNative("forall_int")
 
 
+UNIVERSE: dict = {}  # native side: a finite universe per sort name, registered by a generator module (e.g. the
+#                      event classes it draws from); quantifiers over the sort range over it (a bounded reading)
+
+
 def forall_of(tyname, f):
-    raise NotNative("forall_of")
+    if tyname not in UNIVERSE:
+        raise NotNative("forall_of")
+    return all(f(x) for x in UNIVERSE[tyname])
 
 
 def exists_of(tyname, f):
-    raise NotNative("exists_of")
+    if tyname not in UNIVERSE:
+        raise NotNative("exists_of")
+    return any(f(x) for x in UNIVERSE[tyname])
 
 
 def implies(a, b):
@@ -185,3 +193,12 @@ def exc_arg(e, i, type_name=None):
     except (TypeError, ValueError):
         pass
     return e.args[i]
+
+
+def dpos(d, k, sorted_=False):
+    """position of key / member k in the iteration order of the dict / set d (natively: CPython's actual order)"""
+    keys = sorted(d) if sorted_ else list(d)
+    return keys.index(k) if k in keys else -1
+
+
+dpos_exact = dpos
